@@ -5,6 +5,7 @@ import (
 	"go/token"
 	"go/types"
 	"regexp"
+	"strings"
 
 	"golang.org/x/tools/go/ssa"
 
@@ -75,6 +76,10 @@ func registerK8sModels(e *Engine) {
 	}
 	validator("IsDNS1123Label", dnsLabel, reLabel, 63)
 	validator("IsDNS1123Subdomain", dnsSub, reSubdomain, 253)
+
+	// fields.EscapeValue uses a package-level strings.Replacer (initialisers are not executed)
+	fieldEscaper := strings.NewReplacer(`\`, `\\`, `,`, `\,`, `=`, `\=`)
+	e.native("k8s.io/apimachinery/pkg/fields.EscapeValue", func(s string) string { return fieldEscaper.Replace(s) })
 
 	errPkg := "k8s.io/apimachinery/pkg/api/errors"
 	reasonOf := func(fr *frame, err iface) string {
